@@ -47,6 +47,7 @@ type harness struct {
 	requireFn lua.LValue
 	clrFn     lua.LValue
 	unpFn     lua.LValue
+	newpreFn  lua.LValue
 	pkg       *lua.LTable
 	wrote     []string // module files written by this history
 	overflow  bool
@@ -93,6 +94,7 @@ const helperSrc = `
 return {
   clr = function(n) package.loaded[n] = nil end,
   unp = function(n) package.preload[n] = nil end,
+  newpre = function() package.preload = {} end,
 }
 `
 
@@ -123,6 +125,7 @@ func newHarness(c *fw.Ctx) (*harness, string) {
 	}
 	h.clrFn = hp.RawGetString("clr")
 	h.unpFn = hp.RawGetString("unp")
+	h.newpreFn = hp.RawGetString("newpre")
 	h.requireFn = L.GetGlobal("require")
 	return h, ""
 }
